@@ -45,7 +45,11 @@ def quarter(q):
     return v2 == s * s and sum(1 for c in (x, y, z) if c) == 1
 
 
-def revolute_case(j, e, alen, rng):
+FIX = 1e-9     # "leaves every point of the axis fixed": no tolerance is stated; 1e-9 x scale is four orders above the
+               # rounding error of the closed form (1e-13 x scale) and far below any formula error
+
+
+def revolute_case(j, e, alen, rng, sigma=1.0):
     import spatialmath.base as b
     from spatialmath import Twist3, SE3
     c = e["c"]
@@ -54,12 +58,12 @@ def revolute_case(j, e, alen, rng):
     nv = float(np.linalg.norm(v))
     u = v / nv
     th = 2.0 * math.atan2(nv, q[0])
-    p = np.array(c["p"], dtype=float)
-    M = gamma.T4(e["m"])
+    p = np.array(c["p"], dtype=float) * sigma
+    M = gamma.T4(e["m"], sigma)
     a = u * alen
     sc = max(1.0, float(np.linalg.norm(p)))
-    feat = "axislen=%g;theta=%s" % (alen, "quarter" if quarter(q) else "pi" if q[0] == 0 else "generic")
-    detail = {"kind": "revolute", "case": c, "axislen": alen, "theta": th}
+    feat = "axislen=%g;point=%g;theta=%s" % (alen, sigma, "quarter" if quarter(q) else "pi" if q[0] == 0 else "generic")
+    detail = {"kind": "revolute", "case": c, "axislen": alen, "theta": th, "point_scale": sigma}
     S = guard(j, "Twist3.Revolute", feat, detail, ("Revolute", alen), lambda: Twist3.Revolute(a, p))
     if S is None:
         return
@@ -72,14 +76,20 @@ def revolute_case(j, e, alen, rng):
         if r is not None:
             d = float(np.max(np.abs(np.asarray(r, dtype=float) - M)))
             check(j, d <= TOL * sc, site, feat, "not-the-rotation-about-the-axis", dict(detail, distance=d), cid)
-    cid = ("exp(vector theta)", feat)
-    rv = guard(j, "Twist3.exp(vector)", feat, detail, cid, lambda: S.exp([0.0, th, -th]))
-    if rv is not None:
-        ok = len(rv) == 3 and float(np.max(np.abs(rv[0].A - np.eye(4)))) <= TOL and float(np.max(np.abs(rv[1].A - M))) <= TOL * sc \
-            and float(np.max(np.abs(rv[2].A @ M - np.eye(4)))) <= TOL * sc
-        check(j, ok, "Twist3.exp(vector)", feat, "wrong-sequence", detail, cid)
-    # every point of the axis is fixed by exp(theta S) for arbitrary theta
-    for t2 in (th, -2.3, 2 * math.pi, 0.0, 5.1):
+    dg = math.degrees(th)
+    for site, fn in {"Twist3.exp(vector)": lambda: S.exp([0.0, th, -th]), "Twist3.exp(ndarray)": lambda: S.exp(np.array([0.0, th, -th])),
+                     "Twist3.exp(vector,deg)": lambda: S.exp([0.0, dg, -dg], units="deg"),
+                     "Twist3.exp(ndarray,deg)": lambda: S.exp(np.array([0.0, dg, -dg]), units="deg")}.items():
+        cid = (site, feat)
+        rv = guard(j, site, feat, detail, cid, fn)
+        if rv is not None:
+            ok = len(rv) == 3 and float(np.max(np.abs(rv[0].A - np.eye(4)))) <= TOL and float(np.max(np.abs(rv[1].A - M))) <= TOL * sc \
+                and float(np.max(np.abs(rv[2].A @ M - np.eye(4)))) <= TOL * sc
+            check(j, ok, site, feat, "wrong-sequence", detail, cid)
+    # every point of the axis is fixed by exp(theta S) for arbitrary theta in [-2 pi, 2 pi], small ones included
+    sweep = [th, -2.3, 2 * math.pi, 0.0, 5.1, 1e-9, -1e-6, 1e-4, 3e-3, -9e-3, 0.05, math.pi / 2, -math.pi]
+    sweep += [rng.choice((-1, 1)) * 10 ** rng.uniform(-8, 0.79) for _ in range(3)]
+    for t2 in sweep:
         T = guard(j, "Twist3.exp(theta)", feat, detail, ("axis-fixed", feat), lambda: S.exp(t2).A)
         if T is None:
             continue
@@ -87,7 +97,12 @@ def revolute_case(j, e, alen, rng):
         for lam in (-3.0, 0.0, 1.5):
             x = p + lam * u
             worst = max(worst, float(np.max(np.abs(T[:3, :3] @ x + T[:3, 3] - x))))
-        check(j, worst <= TOL * sc, "Twist3.exp(theta)", feat, "axis-point-moved", dict(detail, theta2=t2, moved=worst), ("axis-fixed", feat))
+        check(j, worst <= FIX * sc, "Twist3.exp(theta)", feat, "axis-point-moved", dict(detail, theta2=t2, moved=worst), ("axis-fixed", feat))
+        if abs(t2) <= math.pi:      # both angular units generate the same motion
+            Td = guard(j, "Twist3.exp(theta,deg)", feat, detail, ("deg=rad", feat), lambda: S.exp(math.degrees(t2), units="deg").A)
+            if Td is not None:
+                check(j, float(np.max(np.abs(Td - T))) <= FIX * sc, "Twist3.exp(theta,deg)", feat, "deg-differs-from-rad",
+                      dict(detail, theta2=t2), ("deg=rad", feat))
         # and it rotates by t2 about u: R u = u, trace = 1 + 2 cos
         R = T[:3, :3]
         ok = float(np.max(np.abs(R @ u - u))) <= TOL and abs(float(np.trace(R)) - (1 + 2 * math.cos(t2))) <= TOL
@@ -154,14 +169,14 @@ def prismatic_case(j, d, alen):
         check(j, ok, "Twist3.*", feat, "scalar-multiple-inconsistent-with-exp", detail, ("prismatic-scale",))
 
 
-def planar_case(j, e):
+def planar_case(j, e, rng, sigma=1.0):
     from spatialmath import Twist2
     c = e["c"]
-    g, p = c["g"], np.array(c["p"][:2], dtype=float)
+    g, p = c["g"], np.array(c["p"][:2], dtype=float) * sigma
     th = 2.0 * math.atan2(g[1], g[0])
-    H = gamma.T3(e["m"])
+    H = gamma.T3(e["m"], sigma)
     sc = max(1.0, float(np.linalg.norm(p)))
-    feat = "planar;theta=%s" % ("quarter" if abs(g[0]) == abs(g[1]) else "pi" if g[0] == 0 else "generic")
+    feat = "planar;point=%g;theta=%s" % (sigma, "quarter" if abs(g[0]) == abs(g[1]) else "pi" if g[0] == 0 else "generic")
     detail = {"kind": "planar", "case": c, "theta": th}
     S = guard(j, "Twist2.Revolute", feat, detail, ("Revolute2",), lambda: Twist2.Revolute(p))
     if S is None:
@@ -173,13 +188,28 @@ def planar_case(j, e):
         if r is not None:
             d = float(np.max(np.abs(np.asarray(r, dtype=float) - H)))
             check(j, d <= TOL * sc, site, feat, "not-the-rotation-about-the-point", dict(detail, distance=d), cid)
-    for t2 in (th, -2.3, 2 * math.pi, 5.1):
+    sweep = [th, -2.3, 2 * math.pi, 5.1, 0.0, 1e-9, -1e-6, 1e-4, -9e-3, 0.05, math.pi / 2, -math.pi]
+    sweep += [rng.choice((-1, 1)) * 10 ** rng.uniform(-8, 0.79) for _ in range(2)]
+    for t2 in sweep:
         T = guard(j, "Twist2.exp(theta)", feat, detail, ("point-fixed",), lambda: S.exp(t2).A)
         if T is not None:
-            check(j, float(np.max(np.abs(T[:2, :2] @ p + T[:2, 2] - p))) <= TOL * sc, "Twist2.exp(theta)", feat, "centre-moved", dict(detail, theta2=t2), ("point-fixed",))
-    rv = guard(j, "Twist2.exp(vector)", feat, detail, ("exp2-vector",), lambda: S.exp([0.0, th]))
-    if rv is not None:
-        check(j, len(rv) == 2 and float(np.max(np.abs(rv[1].A - H))) <= TOL * sc, "Twist2.exp(vector)", feat, "wrong-sequence", detail, ("exp2-vector",))
+            check(j, float(np.max(np.abs(T[:2, :2] @ p + T[:2, 2] - p))) <= FIX * sc, "Twist2.exp(theta)", feat, "centre-moved", dict(detail, theta2=t2), ("point-fixed",))
+            ok = abs(T[0, 0] - math.cos(t2)) <= TOL and abs(T[1, 0] - math.sin(t2)) <= TOL
+            check(j, ok, "Twist2.exp(theta)", feat, "wrong-rotation-angle", dict(detail, theta2=t2), ("rotation2",))
+            if abs(t2) <= math.pi:
+                Td = guard(j, "Twist2.exp(theta,deg)", feat, detail, ("deg=rad2",), lambda: S.exp(math.degrees(t2), units="deg").A)
+                if Td is not None:
+                    check(j, float(np.max(np.abs(Td - T))) <= FIX * sc, "Twist2.exp(theta,deg)", feat, "deg-differs-from-rad",
+                          dict(detail, theta2=t2), ("deg=rad2",))
+    dg = math.degrees(th)
+    for site, fn in {"Twist2.exp(vector)": lambda: S.exp([0.0, th, -th]), "Twist2.exp(ndarray)": lambda: S.exp(np.array([0.0, th, -th])),
+                     "Twist2.exp(vector,deg)": lambda: S.exp([0.0, dg, -dg], units="deg"),
+                     "Twist2.exp(ndarray,deg)": lambda: S.exp(np.array([0.0, dg, -dg]), units="deg")}.items():
+        rv = guard(j, site, feat, detail, (site,), fn)
+        if rv is not None:
+            ok = len(rv) == 3 and float(np.max(np.abs(rv[0].A - np.eye(3)))) <= TOL and float(np.max(np.abs(rv[1].A - H))) <= TOL * sc \
+                and float(np.max(np.abs(rv[2].A @ H - np.eye(3)))) <= TOL * sc
+            check(j, ok, site, feat, "wrong-sequence", detail, (site,))
     for d in ((1.0, 0.0), (3.0, -4.0)):
         u = np.array(d) / np.linalg.norm(d)
         P = guard(j, "Twist2.Prismatic", feat, detail, ("Prismatic2",), lambda: Twist2.Prismatic(np.array(d)))
@@ -212,9 +242,10 @@ def run(tier):
             n += 1
             if not thorough and n % 5 and not quarter(c["q"]):
                 continue
-            revolute_case(j, e, lens[n % 4], rng)
+            revolute_case(j, e, lens[n % 4], rng, [1.0, 1e3, 1.0, 30.0, 1e3][n % 5] if thorough else [1.0, 1e3][(n // 5) % 2])
         elif c["k"] == "screw2":
-            planar_case(j, e)
+            for sg in (1.0, 1e3):
+                planar_case(j, e, rng, sg)
     for d in [(1, 0, 0), (0, 0, 1), (1, 1, 0), (1, -2, 3), (-3, 0, 1)]:
         for al in lens:
             prismatic_case(j, d, al)
